@@ -306,6 +306,31 @@ pub fn run(_ctx: &Ctx, rep: &Report) {
     }
     rep.eval(n);
     rep.part("ac13:all-8192-codes×DF4,0,16,20", n, json!({}));
+    // (1') sequences of two decodes: every code right after each of its 13 single-bit neighbours (and after the
+    // 12-bit ME form of the same altitude): the value reported for a code must not depend on what was decoded before
+    let mut np = 0u64;
+    for code in 0..8192u16 {
+        for bit in 0..14 {
+            let before = if bit < 13 { frame_with_ac(4, code ^ (1 << bit)) } else { frame_with_ac12(11, ((code & 0x1f80) >> 1) | (code & 0x3f)) };
+            let _ = decode(&before);
+            np += 1;
+            if let Some((c, w)) = check_ac13(&r, 4, code) {
+                rep.violation(&format!("sequence:{c}"), format!("{w} when decoded right after {}", hexs(&before)), json!({"kind":"ac13-after","df":4,"code":code,"after":hexs(&before)}));
+            }
+        }
+    }
+    for code in 0..4096u16 {
+        for bit in 0..13 {
+            let before = if bit < 12 { frame_with_ac12(11, code ^ (1 << bit)) } else { frame_with_ac(4, ((code & 0xfc0) << 1) | (code & 0x3f) | 0x40) };
+            let _ = decode(&before);
+            np += 1;
+            if let Some((c, w)) = check_ac12(&r, 11, code) {
+                rep.violation(&format!("sequence:{c}"), format!("{w} when decoded right after {}", hexs(&before)), json!({"kind":"ac12-after","tc":11,"code":code,"after":hexs(&before)}));
+            }
+        }
+    }
+    rep.eval(np);
+    rep.part("sequences: every code after each single-bit neighbour", np, json!({}));
     // (2) all 2^12 ME codes, TC 9..18 (thorough-equivalent; cheap)
     let mut n2 = 0u64;
     for tc in [11u8, 9, 18, 20] {
@@ -403,6 +428,14 @@ pub fn replay(w: &Value, rep: &Report) {
     let r = RefAlt::new();
     let code = w["code"].as_u64().unwrap_or(0) as u16;
     let res = match w["kind"].as_str() {
+        Some("ac13-after") => {
+            let _ = decode(&unhex(w["after"].as_str().unwrap_or("")));
+            check_ac13(&r, w["df"].as_u64().unwrap() as u8, code).map(|(c, t)| (format!("sequence:{c}"), t))
+        }
+        Some("ac12-after") => {
+            let _ = decode(&unhex(w["after"].as_str().unwrap_or("")));
+            check_ac12(&r, w["tc"].as_u64().unwrap() as u8, code).map(|(c, t)| (format!("sequence:{c}"), t))
+        }
         Some("ac13") => check_ac13(&r, w["df"].as_u64().unwrap() as u8, code),
         Some("ac12") => check_ac12(&r, w["tc"].as_u64().unwrap() as u8, code),
         Some("gray") => check_gray(&r, code),
